@@ -191,6 +191,17 @@ def cache_families(kind, kt, vt, strat):
     for fn in ("del", "upd", "ins", "clear", "load", "stop:1"):
         add("G9b-visitor-" + fn, dict(two, k3=(OTHER, 3), k4=(OTHER, 4)), exp1 + [S("Set", "k3", v(), d=50)],
             [[S("Range", k="k4", v=v(), fn=fn), S("Count")], [S("Set", "k3", v(), d=50)]])
+    # G11 / G12 table resizes under the cache: two growers, grow vs Clear, grow vs DeleteExpired (no completed Set may be lost)
+    slots, thr = geom(kind)
+    full = {"k%d" % i: (FOCUS, i) for i in range(1, slots + 1)}
+    gpre = [S("BulkStore", lo=1, hi=thr + 1)] + [S("Set", k, v(), d=50) for k in sorted(full)]
+    gkeys = dict(full, k50=(FOCUS2, 50), k52=(FOCUS, 52), k60=(OTHER, 3))
+    add("G11-two-growers", gkeys, gpre,
+        [[S("Set", "k50", v(), d=50)], [S("Set", "k52", v(), d=50), S("Get", "k52")], [S("Set", "k60", v(), d=50), S("Get", "k50")]], final=["k1", "k50", "k52", "k60"])
+    add("G12-grow-vs-clear", gkeys, gpre,
+        [[S("GetOrSet", "k50", v(), d=50)], [S("Clear"), S("Get", "k1")], [S("Get", "k1"), S("Count")]], final=["k1", "k50"])
+    add("G13-grow-vs-deleteexpired", gkeys, gpre + [S("Set", "k60", v(), d=5), S("Tick", d=6)],
+        [[S("Set", "k50", v(), d=50)], [S("DeleteExpired")], [S("Set", "k60", v(), d=50), S("Get", "k60")]], final=["k1", "k50", "k60"])
     # G10 default expiration changed while stores run
     add("G10-default-swap", two, [],
         [[S("SetDefaultExpiration", d=7)], [S("SetDefault", "k1", v()), S("GetWithExpiration", "k1")], [S("Set", "k2", v(), d=-1000000000), S("GetWithTTL", "k2"), S("DefaultExpiration")]])
